@@ -267,4 +267,8 @@ example : HC.GenC.ckks_multiply_sk true true 2 2 8192 3 true true true true = .o
 /-- `multiply_plain_normal` (coefficient-form operands): the ROUTE (monomial shortcut / generic NTT route, with / without the fast plain lift; the
     data steps are codes, the last of the generic route being the FULL inverse transform `intt_ps`) and the CKKS scale rule at both exits -/
 theorem gen_multiply_plain_normal_plan_eq : type_of% @HC.gl_multiply_plain_normal_plan_eq := @HC.gl_multiply_plain_normal_plan_eq
+example : HC.GenC.ckks_square_sk true 2 8192 3 true true true true = .ok (3, 1) := by
+  rw [HC.gl_ckks_square_eq _ _ _ _ _ _ _ _ (by norm_num) (by norm_num) (by norm_num) (by norm_num) (by norm_num)]; decide
+example : HC.GenC.ct_multiply_plain_normal_plan 5 false true 8192 3 .ckks true false = .error .refused := by
+  rw [HC.gl_multiply_plain_normal_plan_eq _ _ _ _ _ _ _ _ (by norm_num)]; rfl
 end HC.C03
